@@ -135,7 +135,10 @@ class C17(Check):
             sim = SimTerminal(station=1005, eeprom=case["img"], eeprom8=case["mode8"], busy_polls=case["busy"],
                               rng=random.Random(case["seed"]))
             sim.junk_rng = random.Random(case["seed"] + 1)
-            bus = SimBus([sim])
+            # a second terminal at another station address: in `twice` mode the same Terminal OBJECT is bound to it first
+            sim2 = SimTerminal(station=1006, eeprom=case["img"], eeprom8=not case["mode8"], busy_polls=0, rng=random.Random(case["seed"] + 2))
+            sim2.junk_rng = random.Random(case["seed"] + 3)
+            bus = SimBus([sim, sim2])
             attach(ec, bus)
             t = Terminal(ec)
             t.position = 1005
@@ -145,11 +148,17 @@ class C17(Check):
                     # areas): nothing of it may show in what it reports for the image under test
                     prev = build_image((2, 0x1234, 5, 77), [(41, enc_sms([(0x1000, 128, 0x26, 1), (0x1080, 128, 0x22, 2), (0x1100, 4, 0x24, 3), (0x1180, 6, 0x20, 4)])),
                                                            (0x8001, bytes(range(8)))])
-                    sim.eeprom = prev
+                    elsewhere = case["seed"] % 2 == 0      # half of them: at the OTHER station address (the object is re-addressed afterwards)
+                    if elsewhere:
+                        sim2.eeprom = prev
+                        t.position = 1006
+                    else:
+                        sim.eeprom = prev
                     await asyncio.wait_for(t.read_eeprom(), 120)
                     if 41 in t.eeprom:
                         t.parse_sync_managers(t.eeprom[41])
                     sim.eeprom = case["img"]
+                    t.position = 1005
                 await asyncio.wait_for(t.read_eeprom(), 120)
                 idn = [t.vendorId, t.productCode, t.revisionNo, t.serialNo]
                 d = [[k, v] for k, v in t.eeprom.items()]
